@@ -127,6 +127,8 @@ class Check:
 
     # ------------------------------------------------------------------ Coq
     def coq_makefile(self):
+        import mkproject
+        mkproject.main()
         mk = os.path.join(COQ, "Makefile")
         cp = os.path.join(COQ, "_CoqProject")
         if not os.path.exists(mk) or os.path.getmtime(mk) < os.path.getmtime(cp):
@@ -138,7 +140,7 @@ class Check:
         """full .vo build of the given targets (and their dependencies)"""
         with Lock("coq"):
             self.coq_makefile()
-            cmd = "make -j%d %s" % (NPROC, " ".join(targets))
+            cmd = "make -j%d %s" % (NPROC, " ".join(targets) if targets else "all")
             rc, out = sh(cmd, cwd=COQ, timeout=timeout)
         return rc == 0, out
 
